@@ -328,11 +328,11 @@ def add_full_model(rng, case):
         nn = rng.randint(1, 3)
         covered = pool[:rng.randint(max(2, len(pool) // 2), len(pool))]
         nsegs = gen_partition(rng, covered, nn)
-        case['nested'] = [{'name': f'n{i}', 'mu_name': f'mu_n{i}', 'mu': rng.choice([1.0, 1.25, 1.5, 2.0, 3.0]),
+        case['nested'] = [{'name': f'n{i}', 'mu_name': f'mu_n{i}', 'mu': rng.choice([1.0, 1.25, 1.5, 2.0, 3.0]), 'mu_num': rng.random() < 0.3,
                            'alts': s} for i, s in enumerate(nsegs)]
         # cross-nested: two or three nests, every alternative in at least one, alphas sum to one
         cn = rng.randint(2, 3)
-        nests = [{'name': f'c{i}', 'mu_name': f'mu_c{i}', 'mu': rng.choice([1.0, 1.5, 2.0, 2.5]), 'alphas': []}
+        nests = [{'name': f'c{i}', 'mu_name': f'mu_c{i}', 'mu': rng.choice([1.0, 1.5, 2.0, 2.5]), 'mu_num': rng.random() < 0.3, 'alphas': []}
                  for i in range(cn)]
         for a in ids:
             members = rng.sample(range(cn), rng.choice([1, 1, 2]))
@@ -364,10 +364,10 @@ def gen_mevdup_case(rng):
     nn = rng.randint(1, 2)
     assign = [rng.randint(0, nn) for _ in range(nseg)]      # nn = in no nest
     assign[0] = 0
-    case['nested'] = [{'name': f'n{m}', 'mu_name': f'mu_n{m}', 'mu': rng.choice([1.25, 1.5, 2.0, 3.0]),
+    case['nested'] = [{'name': f'n{m}', 'mu_name': f'mu_n{m}', 'mu': rng.choice([1.25, 1.5, 2.0, 3.0]), 'mu_num': rng.random() < 0.3,
                        'alts': sorted(a for s, t in zip(case['mev_segments'], assign) if t == m for a in s)}
                       for m in range(nn) if any(t == m for t in assign)]
-    nests = [{'name': f'c{i}', 'mu_name': f'mu_c{i}', 'mu': rng.choice([1.0, 1.5, 2.0, 2.5]), 'alphas': []} for i in range(2)]
+    nests = [{'name': f'c{i}', 'mu_name': f'mu_c{i}', 'mu': rng.choice([1.0, 1.5, 2.0, 2.5]), 'mu_num': rng.random() < 0.3, 'alphas': []} for i in range(2)]
     for si, seg in enumerate(case['mev_segments']):
         w = rng.choice([[1.0, None], [None, 1.0], [0.5, 0.5], [0.25, 0.75]]) if si > 1 else ([1.0, None], [0.25, 0.75])[si]
         for m, x in enumerate(w):
@@ -610,6 +610,11 @@ End {modname}.
     return text, labels
 
 
+COQ_HEADER_MEV = '''From BV Require Import Model.SamplingMev.
+Open Scope string_scope.
+Open Scope Z_scope.
+'''
+
 COQ_HEADER = '''From BV Require Import Model.Sampling.
 Open Scope string_scope.
 Open Scope Z_scope.
@@ -724,6 +729,19 @@ def stream_sample(ctx):
         ctx.stream_broken('sample', f'{len(st.disagreements)} disagreements, first: {json.dumps(st.disagreements[0])[:900]}')
 
 
+def mu_coq(n):
+    """the nest parameter as a Python value of Model/BuildersChoice.v"""
+    return f'(PN {cdy(n["mu"])})' if n.get('mu_num') else f'(PE (EBeta {coq_string(n["mu_name"])} false))'
+
+
+def sort_belongs(j):
+    """canonical order of the BelongsTo sets (the iteration order of a Python set is not modelled)"""
+    h = j['h']
+    if h[0] == 'Belongs':
+        h = ['Belongs', sorted(h[1], key=lambda d: Fraction(d[0]) * Fraction(2) ** d[1])]
+    return {'h': h, 'k': [sort_belongs(k) for k in j['k']]}
+
+
 def rel_close(a, b):
     return (isinstance(a, float) and isinstance(b, float)
             and abs(a - b) <= TOL_VAL * max(1.0, abs(a), abs(b)))
@@ -779,6 +797,8 @@ def closed_form_sample_loglik(case, sample_ids):
 def oracle_full_case(case, res):
     out = []
     if not res.get('ok'):
+        if case.get('repeated_in_nest'):
+            return []          # the nest is refused: the finding is repaired
         return [('exception', res.get('exc'))]
     ids = sorted(int(a[0]) for a in case['alts'])
     closed = closed_form_sample_loglik(case, res['sample_ids'])
@@ -791,6 +811,39 @@ def oracle_full_case(case, res):
         if 'sample_exc' in lg:
             out.append(('logit-exception', lg['sample_exc']))
         return out
+    if case.get('repeated_in_nest'):
+        # witness of T19g_nest_repeating_an_alternative_refuted: a nest listing an alternative twice is
+        # accepted by the validators; lognested counts it twice, the sample builder once
+        nr = res['results'].get('nested', {})
+        for n, (a, b) in enumerate(zip(nr.get('sample', []), nr.get('full', []))):
+            if not rel_close(a, b):
+                out.append(('nested-repeated-alternative',
+                            {'individual': n, 'on_sample': a, 'full_model': b, 'nests': case['nested']}))
+                break
+        return out
+    # the columns _CNL_<nest>_<j> / _MEV__CNL_<nest>_<j> hold the alpha of the sampled alternative (0 outside the nest)
+    for nest in case.get('cnl') or []:
+        al = {int(k): float(v) for k, v in nest['alphas']}
+        cols = (res.get('cnl_cols') or {}).get(nest['name'])
+        if not isinstance(cols, dict):
+            out.append(('cnl-alpha-columns', {'nest': nest['name'], 'observed': cols}))
+            continue
+        for which, idl in (('first', res['sample_ids']), ('mev', res.get('mev_ids'))):
+            got = cols.get(which)
+            if not isinstance(got, list) or not isinstance(idl, list):
+                out.append(('cnl-alpha-columns', {'nest': nest['name'], 'sample': which, 'observed': str(got)[:200]}))
+                continue
+            for n, (row_ids, row_al) in enumerate(zip(idl, got)):
+                want = [al.get(as_int(a), 0.0) for a in row_ids]
+                if want != row_al:
+                    out.append(('cnl-alpha-columns', {'nest': nest['name'], 'sample': which, 'individual': n,
+                                                      'ids': row_ids, 'expected': want, 'observed': row_al}))
+                    break
+    if res.get('JM') and isinstance(res.get('mev_weight'), list) and case.get('mode') != 'mevdup':
+        for n, wrow in enumerate(res['mev_weight']):
+            if any(w != 1.0 for w in wrow):
+                out.append(('mev-weight-not-one', {'individual': n, 'weights': wrow}))
+                break
     for n, (sid, lp) in enumerate(zip(res['sample_ids'], res['log_proba'])):
         if sorted(as_int(x) for x in sid if as_int(x) is not None) != ids or len(sid) != len(ids):
             out.append(('not-a-permutation', {'individual': n, 'sampled': sid}))
@@ -835,7 +888,7 @@ def stream_full(ctx):
         c['partial'] = True
         cases.append(complete_full_model(c))
     res = run_impl(ctx, cases)
-    items, idx = [], []
+    items = []
     for i, (c, r) in enumerate(zip(cases, res)):
         st.record(case_summary(c) | {'nested': bool(c.get('nested')), 'cnl': bool(c.get('cnl'))},
                   nontrivial=len(c['segments']) > 1 or bool(c['combined']) or bool(c.get('nested')))
@@ -844,19 +897,36 @@ def stream_full(ctx):
                           {'case': c, 'detail': det}, 'equal log likelihoods (relative 1e-9)', det,
                           how='./check C19 --replay <this file>')
         if not r.get('ok'):
-            st.disagree(case_summary(c), 'a model', r.get('exc'))
+            if not c.get('repeated_in_nest'):
+                st.disagree(case_summary(c), 'a model', r.get('exc'))
             continue
         tree = r['results'].get('logit', {}).get('tree')
         if tree is None:
             st.disagree(case_summary(c), 'get_logit tree', 'not produced')
             continue
         attrs = coq_list([coq_string(a) for a in r['attributes']])
-        items.append(f'expr_eqb (get_logit {attrs} {fcoq(c["utility"])} {r["J"]}%nat) {bridge.json_to_coq(tree)}')
-        idx.append(i)
+        V = fcoq(c['utility'])
+        items.append((i, 'get_logit', f'expr_eqb (get_logit {attrs} {V} {r["J"]}%nat) {bridge.json_to_coq(tree)}'))
+        us = f'(map (utility_j {attrs} "" {V}) (seq 0 {r["J"]}%nat))'
+        ums = f'(map (utility_j {attrs} mev_prefix {V}) (seq 0 {r.get("JM", 0)}%nat))'
+        idc = coq_string(c['id_col'])
+        tn = r['results'].get('nested', {}).get('tree')
+        if c.get('nested') and tn is not None:
+            nests = coq_list([f'(mkNN {mu_coq(n)} {czl(sorted(n["alts"]))})' for n in c['nested']])
+            items.append((i, 'get_nested_logit',
+                          f'res_eqb expr_eqb (get_nested_logit mev_prefix {idc} {us} 0%nat {ums} {nests}) '
+                          f'(Ok {bridge.json_to_coq(sort_belongs(tn))})'))
+        tc = r['results'].get('cnl', {}).get('tree')
+        if c.get('cnl') and tc is not None:
+            nests = coq_list([f'({coq_string(n["name"])}, mkCN {mu_coq(n)} '
+                              + coq_list([f'({cz(int(a))}, PN {cdy(x)})' for a, x in n['alphas']]) + ')' for n in c['cnl']])
+            items.append((i, 'get_cross_nested_logit',
+                          f'res_eqb expr_eqb (get_cross_nested_logit mev_prefix {us} 0%nat {ums} {nests}) '
+                          f'(Ok {bridge.json_to_coq(tc)})'))
     B = 6
     files = {}
     for g in range(0, len(items), B):
-        files[f'full_{g // B}'] = (COQ_HEADER + 'Eval vm_compute in ' + coq_list(items[g:g + B], ';\n') + '.\n')
+        files[f'full_{g // B}'] = (COQ_HEADER_MEV + 'Eval vm_compute in ' + coq_list([t for _, _, t in items[g:g + B]], ';\n') + '.\n')
     outs = ctx.coq_eval_many(files, timeout=1200)
     for k in files:
         ok, out = outs[k]
@@ -870,7 +940,10 @@ def stream_full(ctx):
             continue
         for j, b in enumerate(bs):
             if not b:
-                st.disagree(case_summary(cases[idx[g + j]]), 'get_logit (Gallina builder)', 'a different expression tree')
+                ci, what, _ = items[g + j]
+                st.disagree(case_summary(cases[ci]), f'{what} (Gallina builder)', 'a different expression tree')
+    st.extra['trees_compared'] = {w: sum(1 for _, x, _ in items if x == w)
+                                  for w in ('get_logit', 'get_nested_logit', 'get_cross_nested_logit')}
     st.extra['nested_cases'] = sum(1 for c in cases if c.get('nested'))
     st.extra['cnl_cases'] = sum(1 for c in cases if c.get('cnl'))
     if st.disagreements:
